@@ -260,6 +260,61 @@ Definition exec_pool (m : mem) (param : Z) (r : regs) : option mem :=
            (positions ov)))
   else None.
 
+(* elementwise: param = MUL 0, ADD 1, SUB 2, MIN 3, MAX 4 (LRELU 5, ABS 6, CLZ 7, SHR 8, SHL 9 not modelled).
+   Operand A is the IFM, operand B the IFM2 (or the IFM2 scalar), exchanged when bit 6 of IFM2_BROADCAST is set.
+   ADD/SUB operand scaling (bits 8-9 of IFM_PRECISION): 0 = both operands multiplied by their 16-bit scales;
+   1 / 2 = operand A / B is shifted left by the input shift (20 for 8-bit, 15 for 16-bit operands) and scaled by the
+   32-bit OPA scale with double rounding, the other operand is shifted left by one bit less. *)
+Definition ew_input_shift (elem : Z) : Z := if elem =? 1 then 20 else 15.
+Definition scale_reg (v : Z) : Z * Z := (v mod 4294967296, v / 4294967296).
+
+Definition exec_elementwise (m : mem) (mode : Z) (r : regs) : option mem :=
+  let iv := ifm_view cmd0_NPU_OP_ELEMENTWISE r in
+  let v2 := ifm2_view r in
+  let ov := ofm_view r in
+  let bc := r0 r cmd0_NPU_SET_IFM2_BROADCAST in
+  let rev := (bc / 64) mod 2 =? 1 in
+  let scalar := (bc / 128) mod 2 =? 1 in
+  if negb ((r0 r cmd0_NPU_SET_ACTIVATION) mod 4096 =? 0) || negb (r0 r cmd0_NPU_SET_IFM_UPSCALE =? 0)
+     || negb (mode <=? 4) || (4 <=? fv_elem iv) || (4 <=? fv_elem ov) then None else
+  let b1 := get_bank m (fv_region iv) in
+  let b2 := get_bank m (fv_region v2) in
+  let sg1 := ifm_signed r in
+  let sg2 := (r0 r cmd0_NPU_SET_IFM2_PRECISION) mod 2 =? 1 in
+  let zp1 := s16 (r0 r cmd0_NPU_SET_IFM_ZERO_POINT) in
+  let zp2 := s16 (r0 r cmd0_NPU_SET_IFM2_ZERO_POINT) in
+  let zpo := s16 (r0 r cmd0_NPU_SET_OFM_ZERO_POINT) in
+  let lo := s16 (r0 r cmd0_NPU_SET_ACTIVATION_MIN) in
+  let hi := s16 (r0 r cmd0_NPU_SET_ACTIVATION_MAX) in
+  let sc_imm := let v := r0 r cmd0_NPU_SET_IFM2_SCALAR in
+                if sg2 then to_signed (8 * fv_elem v2) (v mod 2 ^ (8 * fv_elem v2)) else v mod 2 ^ (8 * fv_elem v2) in
+  let val1 (y xx c : Z) := rd_elem b1 (elem_addr iv y xx c) (fv_elem iv) sg1 - zp1 in
+  let val2 (y xx c : Z) :=
+      (if scalar then sc_imm
+       else rd_elem b2 (elem_addr v2 (if fv_h v2 =? 1 then 0 else y) (if fv_w v2 =? 1 then 0 else xx)
+                                     (if fv_d v2 =? 1 then 0 else c)) (fv_elem v2) sg2) - zp2 in
+  let smode := ((r0 r cmd0_NPU_SET_IFM_PRECISION) / 256) mod 4 in
+  let '(opa_s, opa_sh) := scale_reg (r1 r cmd1_NPU_SET_OPA_SCALE) in
+  let opb_s := (r1 r cmd1_NPU_SET_OPB_SCALE) mod 65536 in
+  let '(ofm_s, ofm_sh) := scale_reg (r1 r cmd1_NPU_SET_OFM_SCALE) in
+  let ish := ew_input_shift (fv_elem iv) in
+  let wide (v : Z) := scale_tfl (v * 2 ^ ish) opa_s (opa_sh + ish) in
+  let narrow (v : Z) := v * 2 ^ (ish - 1) in
+  let pre_a (a : Z) := if smode =? 0 then a * (opa_s mod 65536) else if smode =? 1 then wide a else narrow a in
+  let pre_b (b : Z) := if smode =? 0 then b * opb_s else if smode =? 2 then wide b else narrow b in
+  let out (v : Z) := if global_scale r then apply_scale (rounding_mode r) v ofm_s ofm_sh else v in
+  Some (write_ofm m ov
+    (map (fun p => let '(y, xx, c) := p in
+            let a := if rev then val2 y xx c else val1 y xx c in
+            let b := if rev then val1 y xx c else val2 y xx c in
+            let v := if mode =? 0 then out (a * b)
+                     else if mode =? 1 then out (pre_a a + pre_b b)
+                     else if mode =? 2 then out (pre_a a - pre_b b)
+                     else if mode =? 3 then out (Z.min a b)
+                     else out (Z.max a b) in
+            (y, xx, c, clampz lo hi (v + zpo)))
+         (positions ov))).
+
 Definition exec_dma (m : mem) (r : regs) : option mem :=
   let n := r1 r cmd1_NPU_SET_DMA0_LEN in
   let sreg := r0 r cmd0_NPU_SET_DMA0_SRC_REGION in
@@ -273,6 +328,7 @@ Definition exec_op (x : xcfg) (m : mem) (code param : Z) (r : regs) : option mem
   if code =? cmd0_NPU_OP_DMA_START then exec_dma m r
   else if (code =? cmd0_NPU_OP_CONV) || (code =? cmd0_NPU_OP_DEPTHWISE) then exec_conv x m code r
   else if code =? cmd0_NPU_OP_POOL then exec_pool m param r
+  else if code =? cmd0_NPU_OP_ELEMENTWISE then exec_elementwise m param r
   else None.
 
 Fixpoint exec_events (x : xcfg) (m : mem) (evs : list event) : option mem :=
